@@ -10,6 +10,7 @@ def extract(g, X):
     co = X.strip_comments(X.read("pdf/src/object/color.rs"))
     fu = X.strip_comments(X.read("pdf/src/object/function.rs"))
     en = X.strip_comments(X.read("pdf/src/encoding.rs"))
+    ec = X.strip_comments(X.read("pdf/src/enc.rs"))
 
     def tree_depth():
         vals = re.findall(r"self\.walk_limited\(\s*\w+\s*,\s*\w+\s*,\s*(\d+)\s*,", ty)
@@ -66,3 +67,19 @@ def extract(g, X):
         m = re.search(r"\b(\w+)\s*=\s*\1\.wrapping_add\(1\)", b)        # the running glyph code, whatever it is called
         return "1" if m and not re.search(r"\b" + m.group(1) + r"\s*\+=\s*1", b) else "0"
     g.attempt([("diff_wrapping", "N")], "encoding.rs:Encoding::from_primitive", diff)
+
+    def fax():
+        b = X.fn_body(ec, "fax_decode")
+        # `unimplemented!()` is a bail! in this crate (error.rs): either spelling refuses K >= 0 with an error value
+        k = 1 if re.search(r"if\s+params\.k\s*>=\s*0\s*\{\s*(bail!|unimplemented!)", b) else 0
+        # the guards must precede the decoder call
+        call = b.find("decode_g4(")
+        mc = re.search(r"match\s+u16::try_from\(params\.columns\)\s*\{\s*Ok\(c\)\s+if\s+c\s*>\s*0\s*=>\s*c\s*,\s*_\s*=>\s*bail!", b)
+        mr = re.search(r"0\s*=>\s*None\s*,\s*rows\s*=>\s*Some\(u16::try_from\(rows\)\.map_err\(", b)
+        cols = 1 if mc and 0 <= mc.start() < call else 0
+        rows = 1 if mr and 0 <= mr.start() < call else 0
+        no_assert = 1 if not re.search(r"\bassert(_eq|_ne)?!", b) and ".unwrap()" not in b else 0
+        no_cap = 1 if "with_capacity" not in b else 0
+        return str(k), str(cols), str(rows), str(no_assert), str(no_cap)
+    g.attempt([("fax_k_guard", "N"), ("fax_columns_guard", "N"), ("fax_rows_guard", "N"), ("fax_no_assert", "N"), ("fax_no_capacity", "N")],
+              "enc.rs:fax_decode", fax)
